@@ -37,12 +37,12 @@ def _ident_job(k):
         S = ob["S_ref"][i].item()
         Sh = S  # S_ref of a half model counts both halves as well
         for name, val, refv in (("L", ob["L"][i].item(), L), ("D", ob["D"][i].item(), D), ("CL", ob["sCL"][i].item(), L / (q * Sh) + s.get("CL0", 0.0)), ("CDi", ob["sCDi"][i].item(), D / (q * Sh))):
-            if abs(val - refv) > 1e-9 * max(abs(refv), abs(L) * 1e-3):
+            if not (abs(val - refv) <= 1e-9 * max(abs(refv), abs(L) * 1e-3)):
                 bad.append((name, i, val, refv))
         cl += ob["sCL"][i].item() * S / stot
         cd += ob["sCD"][i].item() * S / stot
     for name, val, refv in (("CL", ob["CL"].item(), cl), ("CD", ob["CD"].item(), cd)):
-        if abs(val - refv) > 1e-10 * max(abs(refv), 1e-3):
+        if not (abs(val - refv) <= 1e-10 * max(abs(refv), 1e-3)):
             bad.append((name, -1, val, refv))
     return (k, cls, bad)
 
